@@ -100,10 +100,11 @@ func dispHonestRun(r *prng.R, s *out.Sink, session string, ids []uint16, party m
 	}
 	for i, id := range ids {
 		b := sess[id].backend
-		bp := []byte{1, 1, byte(i), 0xB0}
+		// backend messages of every small length: two bytes (round and class only), three, four
+		bp := []byte{1, 1, byte(i), 0xB0}[:2+i%3]
 		b.send(bp, true, 0)
 		nextParty := party[ids[(i+1)%len(ids)]]
-		pp := []byte{2, 0, byte(i), 0xD0}
+		pp := []byte{2, 0, byte(i), 0xD0}[:2+(i+1)%3]
 		b.send(pp, false, nextParty)
 		for _, other := range ids {
 			if other != id {
